@@ -55,7 +55,7 @@ $(STAMP): FORCE
 $(CFG): FORCE
 	@mkdir -p $(OUT)/cfg
 	@if [ -f $(SRC)/config.h ]; then rm -f $@; \
-	 else if [ ! -f $@ ]; then printf '#define HAVE_CXX11 1\n#define HAVE_LIBGMP 1\n#define HAVE_MALLOC_USABLE_SIZE 1\n#define HAVE_GETRUSAGE 1\n#define HAVE_SYS_TIME_H 1\n#define HAVE_GETTIMEOFDAY 1\n#define PACKAGE_VERSION "0.18.2"\n#define VERSION "0.18.2"\n#define PACKAGE_URL "https://asminer.github.io/meddly/"\n' > $@; fi; fi
+	 else if [ ! -f $@ ]; then printf '#define HAVE_CXX11 1\n#define HAVE_LIBGMP 1\n#define HAVE_MALLOC_USABLE_SIZE 1\n#define HAVE_GETRUSAGE 1\n#define HAVE_SYS_TIME_H 1\n#define HAVE_GETTIMEOFDAY 1\n#define PACKAGE_NAME "MEDDLY"\n#define PACKAGE_VERSION "0.18.2"\n#define VERSION "0.18.2"\n#define PACKAGE_URL "https://asminer.github.io/meddly/"\n' > $@; fi; fi
 
 $(OUT)/cfg/revision.h: FORCE
 	@mkdir -p $(OUT)/cfg
